@@ -63,6 +63,10 @@ func c14List(k *h.Case, g *spec.Gen, movement bool, maxLen, depth int, allowBig 
 			if r.IntN(9) == 0 {
 				e.Name = "ITEM_NONE"
 			}
+			if r.IntN(8) == 0 {
+				// a constant (defined at the top of the file); LAST_ITEM expands to the terminator
+				e.Name = []string{"$LAST_ITEM", "$SHOP_ITEM_A", "$SHOP_ITEM_B"}[r.IntN(3)]
+			}
 		}
 		es = append(es, e)
 	}
@@ -94,6 +98,11 @@ func runC14(ctx *h.Ctx) int {
 		prog := g.Prog
 		prog.Switches["GAME"] = []string{"RUBY", "SAPPHIRE", "1", "zzz"}[k.R.IntN(4)]
 		prog.Switches["LANG"] = []string{"RUBY", "SAPPHIRE", "1", "zzz"}[k.R.IntN(4)]
+		prog.Items = append(prog.Items,
+			&spec.Const{ID: prog.NewID(), Name: "LAST_ITEM", Value: []string{"ITEM_NONE"}},
+			&spec.Const{ID: prog.NewID(), Name: "SHOP_ITEM_A", Value: []string{"ITEM_ESCAPE_ROPE"}},
+			&spec.Const{ID: prog.NewID(), Name: "SHOP_ITEM_B", Value: []string{"$SHOP_ITEM_A"}})
+		constVal := map[string]string{"$LAST_ITEM": "ITEM_NONE", "$SHOP_ITEM_A": "ITEM_ESCAPE_ROPE", "$SHOP_ITEM_B": "ITEM_ESCAPE_ROPE"}
 		n := 1 + k.R.IntN(3)
 		var script *spec.Script
 		for i := 0; i < n; i++ {
@@ -167,7 +176,12 @@ func runC14(ctx *h.Ctx) int {
 				}
 				var items []string
 				for _, e := range x.Items {
-					items = append(items, e.Name)
+					if v, ok := constVal[e.Name]; ok {
+						items = append(items, v)
+						k.Count("mart_items_from_constants", 1)
+					} else {
+						items = append(items, e.Name)
+					}
 				}
 				want := []string{}
 				for _, s := range truncateAtTerminator(items, "ITEM_NONE") {
